@@ -33,15 +33,6 @@ Proof. unfold rng. rewrite andb_true_iff, !Z.leb_le. tauto. Qed.
 Lemma rng_false lo hi b : rng lo hi b = false <-> ~ (lo <= b <= hi).
 Proof. apply bool_false_iff. apply rng_true. Qed.
 
-(* evaluate num_step on a byte whose class is known *)
-Ltac step_digit d Hd :=
-  unfold num_step;
-  replace (sc_digit d) with true by (symmetry; apply sc_digit_true; unfold digit in *; lia);
-  try replace (rng 49 57 d) with true by (symmetry; apply rng_true; unfold digit in *; lia);
-  try replace (d =? 45) with false by (symmetry; apply Z.eqb_neq; unfold digit in *; lia);
-  try replace (d =? 48) with false by (symmetry; apply Z.eqb_neq; unfold digit in *; lia);
-  try replace (d =? 43) with false by (symmetry; apply Z.eqb_neq; unfold digit in *; lia).
-
 Lemma sm_digits_N1 ds r : Forall digit ds -> num_sm N1 (ds ++ r) = num_sm N1 r.
 Proof.
   induction 1 as [|d ds Hd _ IH]; [reflexivity|]. cbn [app num_sm].
@@ -134,9 +125,6 @@ Proof.
 Qed.
 
 (* --- inversion of the state machine --- *)
-
-Lemma num_step_digit_cases st c st' : num_step st c = Some st' -> True.
-Proof. trivial. Qed.
 
 Lemma sm_NE0_inv bs : num_sm NE0 bs = true -> Forall digit bs.
 Proof.
@@ -269,10 +257,10 @@ Proof.
     rewrite (IH _ _ _ _ Hds'). unfold dstep. destruct dot; [f_equal; lia|reflexivity].
 Qed.
 
-Lemma scan_mantissa_stop ep x m fc dot : ExpPart ep x -> dot = true \/ True ->
+Lemma scan_mantissa_stop ep x m fc : ExpPart ep x ->
   scan_mantissa ep m fc true = (m, fc, ep).
 Proof.
-  intros He _. destruct He as [|c d ds Hc _|c d ds Hc _|c d ds Hc _]; [reflexivity| | |];
+  intros He. destruct He as [|c d ds Hc _|c d ds Hc _|c d ds Hc _]; [reflexivity| | |];
     cbn [scan_mantissa];
     replace (sc_digit c) with false by (symmetry; apply sc_digit_false; unfold digit; lia);
     cbn [negb andb]; rewrite andb_false_r; reflexivity.
@@ -322,12 +310,9 @@ Proof.
     rewrite app_nil_r. reflexivity.
   - change ((46 :: d :: ds) ++ ep) with (46 :: ((d :: ds) ++ ep)). rewrite scan_mantissa_dot.
     rewrite (scan_mantissa_digits _ _ _ _ _ Hds).
-    rewrite (scan_mantissa_stop _ x _ _ true He (or_introl eq_refl)).
+    rewrite (scan_mantissa_stop _ x _ _ He).
     unfold dec_val. rewrite fold_left_app. rewrite Z.add_0_l. reflexivity.
 Qed.
-
-Lemma IntPart_not_minus ip : IntPart ip -> forall (A : Type) (a b : ip ++ [] = ip ++ [] -> A), True.
-Proof. trivial. Qed.
 
 Lemma number_value_complete nb m e : Number nb m e -> number_value nb = (m, e).
 Proof.
@@ -1311,13 +1296,12 @@ Section LoopSound.
     assert (Hfin : forall pre_rest ms',
       ds ++ kd = [] -> vd = [] ->
       t3 :: r3 = pre_rest ++ rest ->
-      (TokV (firstn 0 []) JNull -> False) \/ True ->
       forall (Hbuild : forall pk pv', TokV pk (JStr k) -> TokV pv' v ->
                  t0 :: r0 = pk ++ colon :: pv' ++ pre_rest ++ rest ->
                  TokM (pk ++ colon :: pv' ++ pre_rest) ms'),
       exists pre ms, t0 :: r0 = pre ++ rest /\ Some (JObj (acc ++ ms')) = Some (JObj (acc ++ ms)) /\
         ((ms = [] /\ exists c, pre = [c] /\ tty c = TBraceC) \/ TokM pre ms)).
-    { intros pre_rest ms' Hd Hvd E3 _ Hbuild. apply app_eq_nil in Hd. destruct Hd as [-> ->]. subst vd.
+    { intros pre_rest ms' Hd Hvd E3 Hbuild. apply app_eq_nil in Hd. destruct Hd as [-> ->]. subst vd.
       destruct (pv_sound _ _ _ Ek) as [pk [Ek' Hk]]. destruct (pv_sound _ _ _ Ev) as [pv' [Ev' Hv]].
       assert (E : t0 :: r0 = pk ++ colon :: pv' ++ pre_rest ++ rest).
       { rewrite Ek', Ev', E3. reflexivity. }
@@ -1330,9 +1314,9 @@ Section LoopSound.
       rewrite read_cons in H by (rewrite Et3; discriminate). injection H as Ho Hd Hr. subst o rest.
       apply app_eq_nil in Hd; destruct Hd as [Hd1 Hd2].
       split; [apply app_eq_nil in Hd1; tauto|].
-      apply (Hfin [t3] [(k, v)] Hd1 Hd2 eq_refl (or_intror I)).
+      apply (Hfin [t3] [(k, v)] Hd1 Hd2 eq_refl).
       intros pk pv' Hk Hv _. inversion Hk; subst. cbn [app].
-      change (pv' ++ [t3]) with (pv' ++ [t3]). apply TM_one; assumption.
+      apply TM_one; assumption.
     - (* bracket instead of brace *)
       destruct (read (t3 :: r3)) as [[t [|t4 ts4]]|]; try discriminate. absurd_exit H.
     - (* comma *)
@@ -1345,7 +1329,7 @@ Section LoopSound.
       destruct Hcase as [[-> [c [-> Hc]]]|Hm].
       + cbn [app] in E'. inversion E'; subst. apply jtype_eqb_neq in E4. contradiction.
       + rewrite Ho. rewrite <- app_assoc. cbn [app].
-        apply (Hfin (t3 :: pre') ((k, v) :: ms') Hd1 Hd2); [rewrite E'; reflexivity|right; exact I|].
+        apply (Hfin (t3 :: pre') ((k, v) :: ms') Hd1 Hd2); [rewrite E'; reflexivity|].
         intros pk pv' Hk Hv _. inversion Hk; subst. cbn [app]. apply TM_cons; assumption.
     - (* EOF *) absurd_exit H.
   Qed.
@@ -1572,14 +1556,14 @@ Proof.
     apply (scan_ws w1 _ off f' _ _ Hw1 (value_head_nows _ _ _ Hv) eq_refl H1).
   - (* more elements *)
     intros w1 bs w2 v erest vs Hw1 Hv IHv Hw2 He IHe rest off f tsr Hp Hs.
-    rewrite <- !app_assoc in *. cbn [app] in *. rewrite <- !app_assoc in *.
+    rewrite <- !app_assoc in *. cbn [app] in *. rewrite <- ?app_assoc in *.
     assert (Hp2 : has_prepend (erest ++ 93 :: rest) = false).
-    { apply (has_prepend_app (w1 ++ bs ++ w2 ++ [44])). rewrite <- !app_assoc. cbn [app]. exact Hp. }
+    { apply (has_prepend_app (w1 ++ bs ++ w2 ++ [44])). repeat (first [rewrite <- app_assoc | progress cbn [app]]). exact Hp. }
     destruct (IHe rest (off + zlen w1 + zlen bs + zlen w2 + 1) f tsr Hp2) as [tse [fe [E1 E2]]].
     { replace (off + zlen w1 + zlen bs + zlen w2 + 1 + zlen erest + 1)
         with (off + zlen (w1 ++ bs ++ w2 ++ 44 :: erest) + 1) by zl. exact Hs. }
     assert (S3 := scan_punct 44 TComma _ (off + zlen w1 + zlen bs + zlen w2) fe _ _ eq_refl eq_refl E1).
-    assert (S2 := scan_ws w2 _ (off + zlen w1 + zlen bs) (S fe) _ _ Hw2 eq_refl eq_refl S3).
+    assert (S2 := scan_ws w2 (44 :: erest ++ 93 :: rest) (off + zlen w1 + zlen bs) (S fe) _ _ Hw2 eq_refl eq_refl S3).
     assert (HF : follow_ok (w2 ++ 44 :: erest ++ 93 :: rest)) by (apply follow_ws; [exact Hw2|simpl; tauto]).
     assert (HP : has_prepend (bs ++ w2 ++ 44 :: erest ++ 93 :: rest) = false) by (eapply has_prepend_app; exact Hp).
     destruct (IHv _ _ _ _ HF HP S2) as [ts [f' [H1 H2]]].
@@ -1589,21 +1573,21 @@ Proof.
     + apply TE_cons; [exact H2|reflexivity|exact E2].
   - (* one member *)
     intros w1 kb k w2 w3 bs w4 v Hw1 Hk Hw2 Hw3 Hv IH Hw4 rest off f tsr Hp Hs.
-    rewrite <- !app_assoc in *. cbn [app] in *. rewrite <- !app_assoc in *.
+    rewrite <- !app_assoc in *. cbn [app] in *. rewrite <- ?app_assoc in *.
     set (o1 := off + zlen w1). set (o2 := o1 + zlen kb). set (o3 := o2 + zlen w2).
     set (o4 := o3 + 1 + zlen w3). set (o5 := o4 + zlen bs). set (o6 := o5 + zlen w4).
     assert (S6 : jscan_fuel (S f) o6 (125 :: rest) = Some (mkTok TBraceC [125] o6 (o6 + 1) :: tsr)).
     { apply (scan_punct 125 TBraceC); [reflexivity|reflexivity|].
       replace (o6 + 1) with (off + zlen (w1 ++ kb ++ w2 ++ 58 :: w3 ++ bs ++ w4) + 1) by (unfold o6, o5, o4, o3, o2, o1; zl).
       exact Hs. }
-    assert (S5 := scan_ws w4 _ o5 (S f) _ _ Hw4 eq_refl eq_refl S6).
+    assert (S5 := scan_ws w4 (125 :: rest) o5 (S f) _ _ Hw4 eq_refl eq_refl S6).
     assert (HF : follow_ok (w4 ++ 125 :: rest)) by (apply follow_ws; [exact Hw4|simpl; tauto]).
     assert (HP : has_prepend (bs ++ w4 ++ 125 :: rest) = false).
-    { apply (has_prepend_app (w1 ++ kb ++ w2 ++ 58 :: w3)). rewrite <- !app_assoc. cbn [app]. rewrite <- !app_assoc. exact Hp. }
+    { apply (has_prepend_app (w1 ++ kb ++ w2 ++ 58 :: w3)). repeat (first [rewrite <- app_assoc | progress cbn [app]]). exact Hp. }
     destruct (IH _ _ _ _ HF HP S5) as [ts [f1 [H1 H2]]].
     assert (S4 := scan_ws w3 _ (o3 + 1) f1 _ _ Hw3 (value_head_nows _ _ _ Hv) eq_refl H1).
     assert (S3 := scan_punct 58 TColon _ o3 f1 _ _ eq_refl eq_refl S4).
-    assert (S2 := scan_ws w2 _ o2 (S f1) _ _ Hw2 eq_refl eq_refl S3).
+    assert (S2 := scan_ws w2 (58 :: w3 ++ bs ++ w4 ++ 125 :: rest) o2 (S f1) _ _ Hw2 eq_refl eq_refl S3).
     pose proof (json_string_decode_complete _ _ Hk) as Hd.
     pose proof (string_head_nows _ _ (w2 ++ 58 :: w3 ++ bs ++ w4 ++ 125 :: rest) Hk) as Hh.
     assert (Hpk : has_prepend (kb ++ w2 ++ 58 :: w3 ++ bs ++ w4 ++ 125 :: rest) = false)
@@ -1616,29 +1600,31 @@ Proof.
       cbn [app] in Hpk. rewrite <- app_assoc in Hpk. cbn [app] in Hpk.
       destruct (has_prepend_cons _ _ Hpk) as [_ Hp']. exact Hp'. }
     eexists (_ :: _ :: ts ++ [_]), (S (S f1)). split.
-    + apply (scan_ws w1 _ off _ _ o1 Hw1 Hh eq_refl). cbn [app]. rewrite <- app_assoc. cbn [app]. exact S1.
+    + apply (scan_ws w1 _ off _ _ o1 Hw1 Hh eq_refl).
+      repeat (first [rewrite <- app_assoc | progress cbn [app]]).
+      repeat (first [rewrite <- app_assoc in S1 | progress cbn [app] in S1]). exact S1.
     + apply TM_one; try reflexivity; assumption.
   - (* more members *)
     intros w1 kb k w2 w3 bs w4 v mrest ms Hw1 Hk Hw2 Hw3 Hv IHv Hw4 Hm IHm rest off f tsr Hp Hs.
-    rewrite <- !app_assoc in *. cbn [app] in *. rewrite <- !app_assoc in *. cbn [app] in *. rewrite <- !app_assoc in *.
+    rewrite <- !app_assoc in *. cbn [app] in *. rewrite <- ?app_assoc in *. cbn [app] in *. rewrite <- ?app_assoc in *.
     set (o1 := off + zlen w1). set (o2 := o1 + zlen kb). set (o3 := o2 + zlen w2).
     set (o4 := o3 + 1 + zlen w3). set (o5 := o4 + zlen bs). set (o6 := o5 + zlen w4).
     assert (Hp2 : has_prepend (mrest ++ 125 :: rest) = false).
     { apply (has_prepend_app (w1 ++ kb ++ w2 ++ 58 :: w3 ++ bs ++ w4 ++ [44])).
-      rewrite <- !app_assoc. cbn [app]. rewrite <- !app_assoc. cbn [app]. exact Hp. }
+      repeat (first [rewrite <- app_assoc | progress cbn [app]]). exact Hp. }
     destruct (IHm rest (o6 + 1) f tsr Hp2) as [tsm [fm [E1 E2]]].
     { replace (o6 + 1 + zlen mrest + 1)
         with (off + zlen (w1 ++ kb ++ w2 ++ 58 :: w3 ++ bs ++ w4 ++ 44 :: mrest) + 1)
         by (unfold o6, o5, o4, o3, o2, o1; zl). exact Hs. }
     assert (S6 := scan_punct 44 TComma _ o6 fm _ _ eq_refl eq_refl E1).
-    assert (S5 := scan_ws w4 _ o5 (S fm) _ _ Hw4 eq_refl eq_refl S6).
+    assert (S5 := scan_ws w4 (44 :: mrest ++ 125 :: rest) o5 (S fm) _ _ Hw4 eq_refl eq_refl S6).
     assert (HF : follow_ok (w4 ++ 44 :: mrest ++ 125 :: rest)) by (apply follow_ws; [exact Hw4|simpl; tauto]).
     assert (HP : has_prepend (bs ++ w4 ++ 44 :: mrest ++ 125 :: rest) = false).
-    { apply (has_prepend_app (w1 ++ kb ++ w2 ++ 58 :: w3)). rewrite <- !app_assoc. cbn [app]. rewrite <- !app_assoc. exact Hp. }
+    { apply (has_prepend_app (w1 ++ kb ++ w2 ++ 58 :: w3)). repeat (first [rewrite <- app_assoc | progress cbn [app]]). exact Hp. }
     destruct (IHv _ _ _ _ HF HP S5) as [ts [f1 [H1 H2]]].
     assert (S4 := scan_ws w3 _ (o3 + 1) f1 _ _ Hw3 (value_head_nows _ _ _ Hv) eq_refl H1).
     assert (S3 := scan_punct 58 TColon _ o3 f1 _ _ eq_refl eq_refl S4).
-    assert (S2 := scan_ws w2 _ o2 (S f1) _ _ Hw2 eq_refl eq_refl S3).
+    assert (S2 := scan_ws w2 (58 :: w3 ++ bs ++ w4 ++ 44 :: mrest ++ 125 :: rest) o2 (S f1) _ _ Hw2 eq_refl eq_refl S3).
     pose proof (json_string_decode_complete _ _ Hk) as Hd.
     pose proof (string_head_nows _ _ (w2 ++ 58 :: w3 ++ bs ++ w4 ++ 44 :: mrest ++ 125 :: rest) Hk) as Hh.
     assert (Hpk : has_prepend (kb ++ w2 ++ 58 :: w3 ++ bs ++ w4 ++ 44 :: mrest ++ 125 :: rest) = false)
@@ -1651,6 +1637,620 @@ Proof.
       cbn [app] in Hpk. rewrite <- app_assoc in Hpk. cbn [app] in Hpk.
       destruct (has_prepend_cons _ _ Hpk) as [_ Hp']. exact Hp'. }
     eexists (_ :: _ :: ts ++ _ :: tsm), (S (S f1)). split.
-    + apply (scan_ws w1 _ off _ _ o1 Hw1 Hh eq_refl). cbn [app]. rewrite <- app_assoc. cbn [app]. exact S1.
+    + apply (scan_ws w1 _ off _ _ o1 Hw1 Hh eq_refl).
+      repeat (first [rewrite <- app_assoc | progress cbn [app]]).
+      repeat (first [rewrite <- app_assoc in S1 | progress cbn [app] in S1]). exact S1.
     + apply TM_cons; try reflexivity; assumption.
+Qed.
+
+(* ---- C2. accept_complete ----------------------------------------------------------- *)
+
+(* every number token is one big.ParseFloat accepts (its exponent is in range) *)
+Definition go_numbers_ok (bs : list Z) : bool :=
+  forallb (fun t => negb (jtype_eqb (tty t) TNumber) || big_parse_ok (tbytes t)) (jscan bs).
+
+(* The property as stated (DESIGN.md C13): every JSON text is accepted with its value. *)
+Definition accept_complete : Prop :=
+  forall bs v, JsonText bs v -> jparse bs = JRes v [].
+
+Lemma forallb_nums_ok ts :
+  forallb (fun t => negb (jtype_eqb (tty t) TNumber) || big_parse_ok (tbytes t)) ts = true -> nums_ok ts.
+Proof.
+  intro H. unfold nums_ok. apply Forall_forall. intros t Ht Hty.
+  rewrite forallb_forall in H. specialize (H t Ht). rewrite Hty in H. exact H.
+Qed.
+
+Theorem accept_complete_partial : forall bs v,
+  JsonText bs v -> has_prepend bs = false -> go_numbers_ok bs = true -> jparse bs = JRes v [].
+Proof.
+  intros bs v [w1 core w2 v' Hw1 Hv Hw2] Hp Hn.
+  assert (Se : jscan_fuel 1 (0 + zlen w1 + zlen core) w2 = Some [eof_tok (0 + zlen w1 + zlen core + zlen w2)]).
+  { apply jscan_eof_ws. apply sc_WS_WS. exact Hw2. }
+  assert (HF : follow_ok w2) by (destruct Hw2 as [|b w Hb _]; simpl; tauto).
+  assert (HP : has_prepend (core ++ w2) = false) by (eapply has_prepend_app; exact Hp).
+  destruct (proj1 scan_complete _ _ Hv w2 (0 + zlen w1) 1%nat _ HF HP Se) as [ts [f' [H1 H2]]].
+  assert (S0 := scan_ws w1 _ 0 f' _ _ Hw1 (value_head_nows _ _ _ Hv) eq_refl H1).
+  assert (Ej : jscan (w1 ++ core ++ w2) = ts ++ [eof_tok (0 + zlen w1 + zlen core + zlen w2)])
+    by (eapply jscan_opt_of_fuel; exact S0).
+  unfold go_numbers_ok in Hn. rewrite Ej in Hn. rewrite forallb_app in Hn. apply andb_true_iff in Hn.
+  destruct Hn as [Hn _]. apply forallb_nums_ok in Hn.
+  unfold jparse, parse_tokens. rewrite Ej.
+  rewrite (proj1 parse_complete _ _ H2 _ _ Hn) by (rewrite app_length; simpl; lia).
+  reflexivity.
+Qed.
+
+(* ---- C3. accept_sound -------------------------------------------------------------- *)
+
+(* The property as stated: whatever is accepted is a JSON text. *)
+Definition accept_sound : Prop :=
+  forall bs v, jparse bs = JRes v [] -> exists v', JsonText bs v'.
+
+Lemma Tiled_cons_inv off bs t tsr : Tiled off bs (t :: tsr) -> tty t <> TEOF -> tty t <> TInvalid ->
+  exists w rest, bs = w ++ tbytes t ++ rest /\ WS w /\ lex_ok (tty t) (tbytes t) /\ Tiled (tend t) rest tsr.
+Proof.
+  intros H N1 N2. inversion H; subst.
+  - exfalso. apply N1. reflexivity.
+  - exfalso. apply N2. reflexivity.
+  - exists w, rest. cbn [tbytes tty tend]. repeat split; try assumption. apply sc_WS_WS. assumption.
+Qed.
+
+Lemma WS_ascii w : WS w -> Forall (fun b => b < 128) w.
+Proof. unfold WS. apply Forall_impl. intros a H. unfold ws_byte in H. lia. Qed.
+
+Lemma valid_strip w tb rest : utf8_valid (w ++ tb ++ rest) = true ->
+  Forall (fun b => b < 128) w -> Forall (fun b => b < 128) tb -> utf8_valid rest = true.
+Proof.
+  unfold utf8_valid. intros H Hw Ht. rewrite utf8_valid_ascii_list in H by exact Hw.
+  rewrite utf8_valid_ascii_list in H by exact Ht. exact H.
+Qed.
+
+Lemma punct_byte b ty : punct_type b = Some ty -> b = jtype_code ty.
+Proof.
+  unfold punct_type. intro H.
+  repeat match type of H with (if ?a =? ?c then _ else _) = _ =>
+    destruct (Z.eqb_spec a c); [inversion H; subst; reflexivity|] end. discriminate.
+Qed.
+
+Definition is_punct (ty : jtype) : Prop :=
+  ty = TBrackO \/ ty = TBrackC \/ ty = TBraceO \/ ty = TBraceC \/ ty = TComma \/ ty = TColon.
+
+Lemma tiled_punct off bs t tsr : Tiled off bs (t :: tsr) -> is_punct (tty t) -> utf8_valid bs = true ->
+  exists w bs', bs = w ++ jtype_code (tty t) :: bs' /\ WS w /\ Tiled (tend t) bs' tsr /\ utf8_valid bs' = true.
+Proof.
+  intros H Hp Hv.
+  destruct (Tiled_cons_inv _ _ _ _ H) as [w [rest [E [Hw [Hl Ht]]]]];
+    [destruct Hp as [->|[->|[->|[->|[->| ->]]]]]; discriminate
+    |destruct Hp as [->|[->|[->|[->|[->| ->]]]]]; discriminate|].
+  assert (Hb : exists b, tbytes t = [b] /\ punct_type b = Some (tty t))
+    by (destruct Hp as [Hp|[Hp|[Hp|[Hp|[Hp|Hp]]]]]; rewrite Hp in *; exact Hl).
+  destruct Hb as [b [Eb Hpb]]. apply punct_byte in Hpb. subst b. rewrite Eb in E.
+  exists w, rest. repeat split; try assumption.
+  rewrite E in Hv. apply (valid_strip _ _ _ Hv (WS_ascii _ Hw)).
+  constructor; [|constructor]. destruct Hp as [->|[->|[->|[->|[->| ->]]]]]; simpl; lia.
+Qed.
+
+Lemma number_byte_ascii b : number_byte b = true -> b < 128.
+Proof.
+  unfold number_byte, sc_digit. intro H.
+  repeat (apply orb_true_iff in H; destruct H as [H|H]); try (apply Z.eqb_eq in H; lia).
+  apply andb_true_iff in H. destruct H as [_ H]. apply Z.leb_le in H. lia.
+Qed.
+
+Lemma tiled_ascii_leaf off bs t tsr : Tiled off bs (t :: tsr) ->
+  tty t = TKeyword \/ tty t = TNumber -> Forall (fun b => b < 128) (tbytes t) -> utf8_valid bs = true ->
+  exists w bs', bs = w ++ tbytes t ++ bs' /\ WS w /\ Tiled (tend t) bs' tsr /\ utf8_valid bs' = true.
+Proof.
+  intros H Hty Ha Hv.
+  destruct (Tiled_cons_inv _ _ _ _ H) as [w [rest [E [Hw [Hl Ht]]]]];
+    [destruct Hty as [-> | ->]; discriminate|destruct Hty as [-> | ->]; discriminate|].
+  exists w, rest. repeat split; try assumption. rewrite E in Hv. apply (valid_strip _ _ _ Hv (WS_ascii _ Hw) Ha).
+Qed.
+
+Lemma js_space_ascii w : forallb js_space w = true -> Forall (fun b => b < 128) w.
+Proof. intro H. apply WS_ascii. apply js_space_WS. exact H. Qed.
+
+Lemma tiled_string off bs t tsr k : Tiled off bs (t :: tsr) -> tty t = TString ->
+  json_string_decode (tbytes t) = Some k -> utf8_valid bs = true ->
+  exists w core w' bs', bs = w ++ core ++ w' ++ bs' /\ WS w /\ WS w' /\ StringLit core k /\
+                        Tiled (tend t) bs' tsr /\ utf8_valid bs' = true.
+Proof.
+  intros H Hty Hd Hv.
+  destruct (Tiled_cons_inv _ _ _ _ H) as [w [rest [E [Hw [Hl Ht]]]]]; [rewrite Hty; discriminate|rewrite Hty; discriminate|].
+  destruct (json_string_decode_ends _ _ Hd) as [pfx [ws [Etb Hws]]].
+  assert (Hv1 : utf8_valid (pfx ++ 34 :: ws ++ rest) = true).
+  { rewrite E, Etb in Hv. unfold utf8_valid in *. rewrite utf8_valid_ascii_list in Hv by (apply WS_ascii; exact Hw).
+    rewrite <- app_assoc in Hv. cbn [app] in Hv. exact Hv. }
+  destruct (utf8_valid_split pfx 34 (ws ++ rest) ltac:(lia) Hv1) as [Vp Vr].
+  assert (Vrest : utf8_valid rest = true).
+  { unfold utf8_valid in *. rewrite utf8_valid_ascii_list in Vr by (apply js_space_ascii; exact Hws). exact Vr. }
+  assert (Vtb : utf8_valid (tbytes t) = true).
+  { rewrite Etb. apply utf8_valid_app; [exact Vp|]. unfold utf8_valid.
+    rewrite <- (app_nil_r (34 :: ws)). rewrite utf8_valid_ascii_list; [reflexivity|].
+    constructor; [lia|apply js_space_ascii; exact Hws]. }
+  destruct (json_string_decode_sound _ _ Hd Vtb) as [core [w' [Ec [Hw' Hs]]]].
+  exists w, core, w', rest. repeat split; try assumption.
+  rewrite E, Ec. rewrite <- app_assoc. reflexivity.
+Qed.
+
+Lemma kw_ascii : Forall (fun b => b < 128) kw_null /\ Forall (fun b => b < 128) kw_true /\ Forall (fun b => b < 128) kw_false.
+Proof. repeat split; repeat constructor. Qed.
+
+Lemma tiled_sound :
+  (forall ts v, TokV ts v -> forall off bs tsr, Tiled off bs (ts ++ tsr) -> utf8_valid bs = true ->
+     exists w core w' bs' off', bs = w ++ core ++ w' ++ bs' /\ WS w /\ WS w' /\ Value core v /\
+                                Tiled off' bs' tsr /\ utf8_valid bs' = true) /\
+  (forall ts vs, TokE ts vs -> forall off bs tsr, Tiled off bs (ts ++ tsr) -> utf8_valid bs = true ->
+     exists ebs bs' off', bs = ebs ++ 93 :: bs' /\ Elements ebs vs /\ Tiled off' bs' tsr /\ utf8_valid bs' = true) /\
+  (forall ts ms, TokM ts ms -> forall off bs tsr, Tiled off bs (ts ++ tsr) -> utf8_valid bs = true ->
+     exists mbs bs' off', bs = mbs ++ 125 :: bs' /\ Members mbs ms /\ Tiled off' bs' tsr /\ utf8_valid bs' = true).
+Proof.
+  apply tok_mutind.
+  - (* null *) intros t Ht Hb off bs tsr HT Hv. cbn [app] in HT.
+    destruct (tiled_ascii_leaf _ _ _ _ HT (or_introl Ht)) as [w [bs' [E [Hw [HT' Hv']]]]];
+      [rewrite Hb; apply kw_ascii|exact Hv|].
+    exists w, kw_null, [], bs', (tend t). rewrite Hb in E. repeat split; try assumption; [constructor|apply V_null].
+  - intros t Ht Hb off bs tsr HT Hv. cbn [app] in HT.
+    destruct (tiled_ascii_leaf _ _ _ _ HT (or_introl Ht)) as [w [bs' [E [Hw [HT' Hv']]]]];
+      [rewrite Hb; apply kw_ascii|exact Hv|].
+    exists w, kw_true, [], bs', (tend t). rewrite Hb in E. repeat split; try assumption; [constructor|apply V_true].
+  - intros t Ht Hb off bs tsr HT Hv. cbn [app] in HT.
+    destruct (tiled_ascii_leaf _ _ _ _ HT (or_introl Ht)) as [w [bs' [E [Hw [HT' Hv']]]]];
+      [rewrite Hb; apply kw_ascii|exact Hv|].
+    exists w, kw_false, [], bs', (tend t). rewrite Hb in E. repeat split; try assumption; [constructor|apply V_false].
+  - (* number *) intros t m e Ht Hok Hval off bs tsr HT Hv. cbn [app] in HT.
+    destruct (json_number_ok_sound _ Hok) as [m' [e' Hn]].
+    pose proof (number_value_complete _ _ _ Hn) as Hval'. rewrite Hval in Hval'. inversion Hval'; subst m' e'.
+    destruct (tiled_ascii_leaf _ _ _ _ HT (or_intror Ht)) as [w [bs' [E [Hw [HT' Hv']]]]]; [|exact Hv|].
+    { apply Forall_forall. intros b Hb. apply number_byte_ascii.
+      pose proof (Number_bytes _ _ _ Hn) as Hnb. rewrite forallb_forall in Hnb. apply Hnb. exact Hb. }
+    exists w, (tbytes t), [], bs', (tend t). repeat split; try assumption; [constructor|apply V_num; exact Hn].
+  - (* string *) intros t s Ht Hd off bs tsr HT Hv. cbn [app] in HT.
+    destruct (tiled_string _ _ _ _ _ HT Ht Hd Hv) as [w [core [w' [bs' [E [Hw [Hw' [Hs [HT' Hv']]]]]]]]].
+    exists w, core, w', bs', (tend t). repeat split; try assumption. apply V_str. exact Hs.
+  - (* [] *) intros o c Ho Hc off bs tsr HT Hv. cbn [app] in HT.
+    destruct (tiled_punct _ _ _ _ HT) as [w [bs1 [E1 [Hw [HT1 Hv1]]]]]; [rewrite Ho; unfold is_punct; tauto|exact Hv|].
+    destruct (tiled_punct _ _ _ _ HT1) as [w2 [bs2 [E2 [Hw2 [HT2 Hv2]]]]]; [rewrite Hc; unfold is_punct; tauto|exact Hv1|].
+    rewrite Ho in E1. rewrite Hc in E2. cbn [jtype_code] in E1, E2.
+    exists w, (91 :: w2 ++ [93]), [], bs2, (tend c). repeat split; try assumption; [|constructor|apply V_arr0; exact Hw2].
+    rewrite E1, E2. cbn [app]. rewrite <- app_assoc. reflexivity.
+  - (* [ ... ] *) intros o ts vs Ho He IH off bs tsr HT Hv. cbn [app] in HT.
+    destruct (tiled_punct _ _ _ _ HT) as [w [bs1 [E1 [Hw [HT1 Hv1]]]]]; [rewrite Ho; unfold is_punct; tauto|exact Hv|].
+    destruct (IH _ _ _ HT1 Hv1) as [ebs [bs2 [off2 [E2 [Hel [HT2 Hv2]]]]]].
+    rewrite Ho in E1. cbn [jtype_code] in E1.
+    exists w, (91 :: ebs ++ [93]), [], bs2, off2. repeat split; try assumption; [|constructor|apply V_arr; exact Hel].
+    rewrite E1, E2. cbn [app]. rewrite <- app_assoc. reflexivity.
+  - (* {} *) intros o c Ho Hc off bs tsr HT Hv. cbn [app] in HT.
+    destruct (tiled_punct _ _ _ _ HT) as [w [bs1 [E1 [Hw [HT1 Hv1]]]]]; [rewrite Ho; unfold is_punct; tauto|exact Hv|].
+    destruct (tiled_punct _ _ _ _ HT1) as [w2 [bs2 [E2 [Hw2 [HT2 Hv2]]]]]; [rewrite Hc; unfold is_punct; tauto|exact Hv1|].
+    rewrite Ho in E1. rewrite Hc in E2. cbn [jtype_code] in E1, E2.
+    exists w, (123 :: w2 ++ [125]), [], bs2, (tend c). repeat split; try assumption; [|constructor|apply V_obj0; exact Hw2].
+    rewrite E1, E2. cbn [app]. rewrite <- app_assoc. reflexivity.
+  - (* { ... } *) intros o ts ms Ho Hm IH off bs tsr HT Hv. cbn [app] in HT.
+    destruct (tiled_punct _ _ _ _ HT) as [w [bs1 [E1 [Hw [HT1 Hv1]]]]]; [rewrite Ho; unfold is_punct; tauto|exact Hv|].
+    destruct (IH _ _ _ HT1 Hv1) as [mbs [bs2 [off2 [E2 [Hmm [HT2 Hv2]]]]]].
+    rewrite Ho in E1. cbn [jtype_code] in E1.
+    exists w, (123 :: mbs ++ [125]), [], bs2, off2. repeat split; try assumption; [|constructor|apply V_obj; exact Hmm].
+    rewrite E1, E2. cbn [app]. rewrite <- app_assoc. reflexivity.
+  - (* last element *) intros ts v c Hv IH Hc off bs tsr HT Hval. rewrite <- app_assoc in HT. cbn [app] in HT.
+    destruct (IH _ _ _ HT Hval) as [w [core [w' [bs1 [off1 [E1 [Hw [Hw' [Hcore [HT1 Hv1]]]]]]]]]].
+    destruct (tiled_punct _ _ _ _ HT1) as [w2 [bs2 [E2 [Hw2 [HT2 Hv2]]]]]; [rewrite Hc; unfold is_punct; tauto|exact Hv1|].
+    rewrite Hc in E2. cbn [jtype_code] in E2.
+    exists (w ++ core ++ w' ++ w2), bs2, (tend c). repeat split; try assumption.
+    + rewrite E1, E2. repeat (first [rewrite <- app_assoc | progress cbn [app]]). reflexivity.
+    + apply E_one; [exact Hw|exact Hcore|apply WS_app; assumption].
+  - (* more elements *) intros ts v cm rest vs Hv IHv Hcm He IHe off bs tsr HT Hval.
+    rewrite <- app_assoc in HT. cbn [app] in HT.
+    destruct (IHv _ _ _ HT Hval) as [w [core [w' [bs1 [off1 [E1 [Hw [Hw' [Hcore [HT1 Hv1]]]]]]]]]].
+    destruct (tiled_punct _ _ _ _ HT1) as [w2 [bs2 [E2 [Hw2 [HT2 Hv2]]]]]; [rewrite Hcm; unfold is_punct; tauto|exact Hv1|].
+    rewrite Hcm in E2. cbn [jtype_code] in E2.
+    destruct (IHe _ _ _ HT2 Hv2) as [ebs [bs3 [off3 [E3 [Hel [HT3 Hv3]]]]]].
+    exists (w ++ core ++ (w' ++ w2) ++ 44 :: ebs), bs3, off3. repeat split; try assumption.
+    + rewrite E1, E2, E3. repeat (first [rewrite <- app_assoc | progress cbn [app]]). reflexivity.
+    + apply E_cons; [exact Hw|exact Hcore|apply WS_app; assumption|exact Hel].
+  - (* last member *) intros kt k col ts v c Hkt Hk Hcol Hv IH Hc off bs tsr HT Hval.
+    cbn [app] in HT. rewrite <- app_assoc in HT. cbn [app] in HT.
+    destruct (tiled_string _ _ _ _ _ HT Hkt Hk Hval) as [w1 [kb [w2 [bs1 [E1 [Hw1 [Hw2 [Hks [HT1 Hv1]]]]]]]]].
+    destruct (tiled_punct _ _ _ _ HT1) as [w2' [bs2 [E2 [Hw2' [HT2 Hv2]]]]]; [rewrite Hcol; unfold is_punct; tauto|exact Hv1|].
+    rewrite Hcol in E2. cbn [jtype_code] in E2.
+    destruct (IH _ _ _ HT2 Hv2) as [w3 [core [w4 [bs3 [off3 [E3 [Hw3 [Hw4 [Hcore [HT3 Hv3]]]]]]]]]].
+    destruct (tiled_punct _ _ _ _ HT3) as [w4' [bs4 [E4 [Hw4' [HT4 Hv4]]]]]; [rewrite Hc; unfold is_punct; tauto|exact Hv3|].
+    rewrite Hc in E4. cbn [jtype_code] in E4.
+    exists (w1 ++ kb ++ (w2 ++ w2') ++ 58 :: w3 ++ core ++ (w4 ++ w4')), bs4, (tend c). repeat split; try assumption.
+    + rewrite E1, E2, E3, E4. repeat (first [rewrite <- app_assoc | progress cbn [app]]). reflexivity.
+    + apply M_one; try assumption; apply WS_app; assumption.
+  - (* more members *) intros kt k col ts v cm rest ms Hkt Hk Hcol Hv IHv Hcm Hm IHm off bs tsr HT Hval.
+    cbn [app] in HT. rewrite <- app_assoc in HT. cbn [app] in HT.
+    destruct (tiled_string _ _ _ _ _ HT Hkt Hk Hval) as [w1 [kb [w2 [bs1 [E1 [Hw1 [Hw2 [Hks [HT1 Hv1]]]]]]]]].
+    destruct (tiled_punct _ _ _ _ HT1) as [w2' [bs2 [E2 [Hw2' [HT2 Hv2]]]]]; [rewrite Hcol; unfold is_punct; tauto|exact Hv1|].
+    rewrite Hcol in E2. cbn [jtype_code] in E2.
+    destruct (IHv _ _ _ HT2 Hv2) as [w3 [core [w4 [bs3 [off3 [E3 [Hw3 [Hw4 [Hcore [HT3 Hv3]]]]]]]]]].
+    destruct (tiled_punct _ _ _ _ HT3) as [w4' [bs4 [E4 [Hw4' [HT4 Hv4]]]]]; [rewrite Hcm; unfold is_punct; tauto|exact Hv3|].
+    rewrite Hcm in E4. cbn [jtype_code] in E4.
+    destruct (IHm _ _ _ HT4 Hv4) as [mbs [bs5 [off5 [E5 [Hmm [HT5 Hv5]]]]]].
+    exists (w1 ++ kb ++ (w2 ++ w2') ++ 58 :: w3 ++ core ++ (w4 ++ w4') ++ 44 :: mbs), bs5, off5. repeat split; try assumption.
+    + rewrite E1, E2, E3, E4, E5. repeat (first [rewrite <- app_assoc | progress cbn [app]]). reflexivity.
+    + apply M_cons; try assumption; apply WS_app; assumption.
+Qed.
+
+Lemma parse_tokens_accept ts v : parse_tokens ts = JRes v [] ->
+  exists t r, parse_value (S (length ts)) ts = Res v [] (t :: r) /\ tty t = TEOF.
+Proof.
+  unfold parse_tokens. destruct (parse_value (S (length ts)) ts) as [v' ds rest| |]; try discriminate.
+  destruct ds as [|d ds'].
+  - destruct rest as [|t r]; [discriminate|]. destruct (is_eof t) eqn:Ee; [|discriminate].
+    intro H; inversion H; subst. exists t, r. split; [reflexivity|]. apply jtype_eqb_eq. exact Ee.
+  - destruct rest; discriminate.
+Qed.
+
+(* On valid UTF-8 input the parser accepts only JSON texts, with the value the
+   grammar assigns. *)
+Theorem accept_sound_partial : forall bs v,
+  jparse bs = JRes v [] -> utf8_valid bs = true -> JsonText bs v.
+Proof.
+  intros bs v H Hv. unfold jparse in H.
+  destruct (parse_tokens_accept _ _ H) as [t [r [Hp Ht]]].
+  destruct (parse_sound _ _ _ _ Hp) as [pre [E Htok]].
+  pose proof (jscan_tiled bs) as HT. rewrite E in HT.
+  destruct (proj1 tiled_sound _ _ Htok _ _ _ HT Hv) as [w [core [w' [bs' [off' [Eb [Hw [Hw' [Hcore [HT' _]]]]]]]]]].
+  assert (Hws : WS bs').
+  { inversion HT'; subst.
+    - apply sc_WS_WS. assumption.
+    - discriminate.
+    - exfalso. cbn [tty] in Ht. subst ty. assumption. }
+  rewrite Eb. rewrite (app_assoc core w' bs'). rewrite <- (app_assoc core). apply Text; [exact Hw|exact Hcore|].
+  apply WS_app; assumption.
+Qed.
+
+(* ---- C4. the refutations (vm_compute on the faithful model) --------------------------- *)
+
+(* "\xff" : accepted (the byte becomes U+FFFD), not a JSON text *)
+Theorem accept_sound_refuted : ~ accept_sound.
+Proof.
+  intro H. destruct (H [34; 255; 34] (JStr [239; 191; 189])) as [v' Hv'].
+  - vm_compute. reflexivity.
+  - apply json_text_dec_complete in Hv'. vm_compute in Hv'. discriminate.
+Qed.
+
+(* ["<U+0600>",0] : a JSON text; scanString glues the closing quote to the
+   Prepend-class character and the string token runs on *)
+Theorem accept_complete_refuted : ~ accept_complete.
+Proof.
+  intro H.
+  assert (Ht : JsonText [91; 34; 216; 128; 34; 44; 48; 93] (JArr [JStr [216; 128]; JNum 0 0])).
+  { apply json_text_dec_sound. vm_compute. reflexivity. }
+  apply H in Ht. vm_compute in Ht. discriminate.
+Qed.
+
+(* 1e99999999999 : a JSON text; big.ParseFloat reports exponent overflow *)
+Theorem accept_complete_refuted_exponent :
+  exists bs v, JsonText bs v /\ has_prepend bs = false /\ jparse bs <> JRes v [].
+Proof.
+  exists [49; 101; 57; 57; 57; 57; 57; 57; 57; 57; 57; 57; 57], (JNum 1 99999999999). split; [|split].
+  - apply json_text_dec_sound. vm_compute. reflexivity.
+  - vm_compute. reflexivity.
+  - vm_compute. discriminate.
+Qed.
+
+(* ================================================================================== *)
+(* D. totality: with fuel = number of tokens + 1 the parser never runs out of fuel     *)
+(*    and never indexes the token slice out of range, on any input                     *)
+(* ================================================================================== *)
+
+Definition noeof (t : jtoken) : Prop := tty t <> TEOF.
+
+(* a token list as scan produces it: non-EOF tokens followed by one EOF *)
+Definition wf (ts : list jtoken) : Prop :=
+  exists pre e, ts = pre ++ [e] /\ tty e = TEOF /\ Forall noeof pre.
+
+Lemma wf_cons_inv t r : wf (t :: r) -> (tty t = TEOF /\ r = []) \/ (tty t <> TEOF /\ wf r).
+Proof.
+  intros [pre [e [E [He Hp]]]]. destruct pre as [|p pre'].
+  - cbn [app] in E. inversion E; subst. left. split; [exact He|reflexivity].
+  - cbn [app] in E. inversion E; subst. inversion Hp; subst. right. split; [assumption|].
+    exists pre', e. repeat split; assumption.
+Qed.
+
+Lemma wf_length ts : wf ts -> (1 <= length ts)%nat.
+Proof. intros [pre [e [-> _]]]. rewrite app_length. simpl. lia. Qed.
+
+Lemma is_eof_false t : tty t <> TEOF -> is_eof t = false.
+Proof. intro H. unfold is_eof. apply jtype_eqb_neq. exact H. Qed.
+
+Lemma is_eof_true t : tty t = TEOF -> is_eof t = true.
+Proof. intro H. unfold is_eof. apply jtype_eqb_eq. exact H. Qed.
+
+Lemma read_wf ts : wf ts ->
+  exists t r ts', ts = t :: r /\ read ts = Some (t, ts') /\ wf ts' /\ (length ts' <= length ts)%nat /\
+                  (tty t <> TEOF -> ts' = r).
+Proof.
+  intro H. destruct ts as [|t r]; [apply wf_length in H; simpl in H; lia|].
+  destruct (wf_cons_inv _ _ H) as [[He ->]|[Hn Hr]].
+  - exists t, [], [t]. unfold read. rewrite (is_eof_true _ He). repeat split; try assumption; try lia. contradiction.
+  - exists t, r, r. unfold read. rewrite (is_eof_false _ Hn). repeat split; try assumption. simpl. lia.
+Qed.
+
+Definition okres {A} (n : nat) (r : pres A) : Prop :=
+  exists a ds rest, r = Res a ds rest /\ wf rest /\ (length rest <= n)%nat.
+
+Lemma okres_le {A} n m (r : pres A) : okres n r -> (n <= m)%nat -> okres m r.
+Proof. intros [a [ds [rest [E [H1 H2]]]]] L. exists a, ds, rest. repeat split; try assumption. lia. Qed.
+
+Lemma okres_res {A} n (a : A) ds rest : wf rest -> (length rest <= n)%nat -> okres n (Res a ds rest).
+Proof. intros. exists a, ds, rest. repeat split; assumption. Qed.
+
+Lemma obj_recover_ok : forall ts, wf ts -> forall tok open,
+  exists ts', obj_recover tok ts open = Some ts' /\ wf ts' /\ (length ts' <= length ts)%nat.
+Proof.
+  induction ts as [|t r IH]; intros Hw tok open; [apply wf_length in Hw; simpl in Hw; lia|].
+  assert (Hnext : forall o, exists ts', (if is_eof t then Some (t :: r) else obj_recover t r o) = Some ts' /\
+                                   wf ts' /\ (length ts' <= length (t :: r))%nat).
+  { intro o. destruct (wf_cons_inv _ _ Hw) as [[He ->]|[Hn Hr]].
+    - rewrite (is_eof_true _ He). exists [t]. repeat split; [exact Hw|lia].
+    - rewrite (is_eof_false _ Hn). destruct (IH Hr t o) as [ts' [E [H1 H2]]].
+      exists ts'. repeat split; try assumption. simpl. lia. }
+  cbn [obj_recover]. destruct (tty tok); try apply Hnext.
+  - destruct (open - 1 <=? 1); [|apply Hnext]. exists (t :: r). repeat split; [exact Hw|lia].
+  - exists (t :: r). repeat split; [exact Hw|lia].
+Qed.
+
+Lemma arr_recover_ok : forall ts, wf ts -> forall tok open,
+  exists ts', arr_recover tok ts open = Some ts' /\ wf ts' /\ (length ts' <= length ts)%nat.
+Proof.
+  induction ts as [|t r IH]; intros Hw tok open; [apply wf_length in Hw; simpl in Hw; lia|].
+  assert (Hnext : forall o, exists ts', (if is_eof t then Some (t :: r) else arr_recover t r o) = Some ts' /\
+                                   wf ts' /\ (length ts' <= length (t :: r))%nat).
+  { intro o. destruct (wf_cons_inv _ _ Hw) as [[He ->]|[Hn Hr]].
+    - rewrite (is_eof_true _ He). exists [t]. repeat split; [exact Hw|lia].
+    - rewrite (is_eof_false _ Hn). destruct (IH Hr t o) as [ts' [E [H1 H2]]].
+      exists ts'. repeat split; try assumption. simpl. lia. }
+  cbn [arr_recover]. destruct (tty tok); try apply Hnext.
+  - destruct (open - 1 <=? 1); [|apply Hnext]. exists (t :: r). repeat split; [exact Hw|lia].
+  - exists (t :: r). repeat split; [exact Hw|lia].
+Qed.
+
+Lemma after_recover_ok n ts' ds : wf ts' -> (length ts' <= n)%nat -> okres n (after_recover (Some ts') ds).
+Proof.
+  intros Hw Hl. unfold after_recover. destruct ts' as [|t r]; [apply wf_length in Hw; simpl in Hw; lia|].
+  apply okres_res; assumption.
+Qed.
+
+(* read, then recover, then the error exit *)
+Lemma read_recover_obj_ok ts ds n : wf ts -> (length ts <= n)%nat ->
+  okres n (match read ts with
+           | Some (t, ts4) => after_recover (obj_recover t ts4 1) ds
+           | None => Panic
+           end).
+Proof.
+  intros Hw Hl. destruct (read_wf _ Hw) as [t [r [ts' [_ [Er [Hw' [Hl' _]]]]]]]. rewrite Er.
+  destruct (obj_recover_ok _ Hw' t 1) as [ts3 [E3 [Hw3 Hl3]]]. rewrite E3. apply after_recover_ok; [exact Hw3|lia].
+Qed.
+
+Lemma read_recover_arr_ok ts ds n : wf ts -> (length ts <= n)%nat ->
+  okres n (match read ts with
+           | Some (t, ts2) => after_recover (arr_recover t ts2 1) ds
+           | None => Panic
+           end).
+Proof.
+  intros Hw Hl. destruct (read_wf _ Hw) as [t [r [ts' [_ [Er [Hw' [Hl' _]]]]]]]. rewrite Er.
+  destruct (arr_recover_ok _ Hw' t 1) as [ts3 [E3 [Hw3 Hl3]]]. rewrite E3. apply after_recover_ok; [exact Hw3|lia].
+Qed.
+
+Section LoopTotal.
+  Variable pv : list jtoken -> pres jvalue.
+  Variable n : nat.
+  Hypothesis pv_ok : forall ts, wf ts -> (length ts <= n)%nat -> okres (length ts) (pv ts).
+
+  Lemma arr_loop_ok : forall g ts acc ds, wf ts -> (length ts <= n)%nat -> (g >= length ts)%nat ->
+    okres (length ts) (arr_loop pv g ts acc ds).
+  Proof.
+    induction g as [|g IH]; intros ts acc ds Hw Hn Hg; [apply wf_length in Hw; lia|].
+    cbn [arr_loop]. destruct ts as [|t0 r0] eqn:Ets; [apply wf_length in Hw; simpl in Hw; lia|]. rewrite <- Ets in *.
+    destruct (jtype_eqb (tty t0) TBrackC).
+    { destruct (read_wf _ Hw) as [t [r [ts' [_ [Er [Hw' [Hl' _]]]]]]]. rewrite Er. apply okres_res; assumption. }
+    destruct (pv_ok _ Hw Hn) as [v [vd [ts1 [Ev [Hw1 Hl1]]]]]. rewrite Ev.
+    destruct ts1 as [|t1 r1] eqn:Ets1; [apply wf_length in Hw1; simpl in Hw1; lia|]. rewrite <- Ets1 in *.
+    destruct (tty t1) eqn:Et1;
+      try (apply read_recover_arr_ok; [exact Hw1|exact Hl1]).
+    - (* ] *) destruct (read_wf _ Hw1) as [t [r [ts' [_ [Er [Hw' [Hl' _]]]]]]]. rewrite Er.
+      apply okres_res; [exact Hw'|lia].
+    - (* , *) destruct (read_wf _ Hw1) as [t [r [ts2 [E1 [Er [Hw2 [Hl2 Hr2]]]]]]]. rewrite Er.
+      assert (Htt : t = t1) by (rewrite Ets1 in E1; inversion E1; reflexivity). subst t.
+      assert (E2 : ts2 = r) by (apply Hr2; rewrite Et1; discriminate).
+      assert (L2 : S (length ts2) = length ts1) by (rewrite E1, E2; reflexivity).
+      destruct ts2 as [|t2 r2] eqn:Ets2; [apply wf_length in Hw2; simpl in Hw2; lia|]. rewrite <- Ets2 in *.
+      destruct (jtype_eqb (tty t2) TBrackC).
+      + apply okres_res; [exact Hw2|lia].
+      + eapply okres_le; [apply IH; [exact Hw2|lia|lia]|lia].
+    - (* EOF *) destruct (read_wf _ Hw1) as [t [r [ts2 [_ [Er [Hw2 [Hl2 _]]]]]]]. rewrite Er.
+      destruct (arr_recover_ok _ Hw2 t 1) as [ts3 [E3 [Hw3 Hl3]]]. rewrite E3. apply okres_res; [exact Hw3|lia].
+  Qed.
+
+  Lemma obj_loop_ok : forall g ts acc ds, wf ts -> (length ts <= n)%nat -> (g >= length ts)%nat ->
+    okres (length ts) (obj_loop pv g ts acc ds).
+  Proof.
+    induction g as [|g IH]; intros ts acc ds Hw Hn Hg; [apply wf_length in Hw; lia|].
+    cbn [obj_loop]. destruct ts as [|t0 r0] eqn:Ets; [apply wf_length in Hw; simpl in Hw; lia|]. rewrite <- Ets in *.
+    destruct (jtype_eqb (tty t0) TBraceC).
+    { destruct (read_wf _ Hw) as [t [r [ts' [_ [Er [Hw' [Hl' _]]]]]]]. rewrite Er. apply okres_res; assumption. }
+    destruct (pv_ok _ Hw Hn) as [key [kd [ts1 [Ek [Hw1 Hl1]]]]]. rewrite Ek.
+    destruct key as [| | |k| | |]; try (apply okres_res; assumption).
+    destruct (read_wf _ Hw1) as [colon [rc [ts2 [E1 [Er [Hw2 [Hl2 Hr2]]]]]]]. rewrite Er.
+    destruct (jtype_eqb (tty colon) TColon) eqn:Ec; cbn [negb].
+    2:{ destruct (obj_recover_ok _ Hw2 colon 1) as [ts3 [E3 [Hw3 Hl3]]]. rewrite E3. apply after_recover_ok; [exact Hw3|lia]. }
+    apply jtype_eqb_eq in Ec.
+    assert (E2 : ts2 = rc) by (apply Hr2; rewrite Ec; discriminate).
+    assert (L2 : S (length ts2) = length ts1) by (rewrite E1, E2; reflexivity).
+    destruct (pv_ok _ Hw2 ltac:(lia)) as [v [vd [ts3 [Ev [Hw3 Hl3]]]]]. rewrite Ev.
+    destruct ts3 as [|t3 r3] eqn:Ets3; [apply wf_length in Hw3; simpl in Hw3; lia|]. rewrite <- Ets3 in *.
+    destruct (tty t3) eqn:Et3;
+      try (apply read_recover_obj_ok; [exact Hw3|lia]).
+    - (* } *) destruct (read_wf _ Hw3) as [t [r [ts' [_ [Er' [Hw' [Hl' _]]]]]]]. rewrite Er'.
+      apply okres_res; [exact Hw'|lia].
+    - (* ] *) destruct (read_wf _ Hw3) as [t [r [ts4 [_ [Er' [Hw4 [Hl4 _]]]]]]]. rewrite Er'.
+      destruct ts4 as [|t4 r4] eqn:Ets4; [apply wf_length in Hw4; simpl in Hw4; lia|]. rewrite <- Ets4 in *.
+      apply okres_res; [exact Hw4|lia].
+    - (* , *) destruct (read_wf _ Hw3) as [t [r [ts4 [E3 [Er' [Hw4 [Hl4 Hr4]]]]]]]. rewrite Er'.
+      assert (Htt : t = t3) by (rewrite Ets3 in E3; inversion E3; reflexivity). subst t.
+      assert (E4 : ts4 = r) by (apply Hr4; rewrite Et3; discriminate).
+      assert (L4 : S (length ts4) = length ts3) by (rewrite E3, E4; reflexivity).
+      destruct ts4 as [|t4 r4] eqn:Ets4; [apply wf_length in Hw4; simpl in Hw4; lia|]. rewrite <- Ets4 in *.
+      destruct (jtype_eqb (tty t4) TBraceC).
+      + apply okres_res; [exact Hw4|lia].
+      + eapply okres_le; [apply IH; [exact Hw4|lia|lia]|lia].
+    - (* EOF *) apply okres_res; [exact Hw3|lia].
+  Qed.
+End LoopTotal.
+
+Lemma wrap_invalid_ok n r : okres n r -> okres n (wrap_invalid r).
+Proof.
+  intros [o [ds [rest [-> [H1 H2]]]]]. destruct o; simpl; apply okres_res; assumption.
+Qed.
+
+Lemma leaf_ok ts (F : jtoken -> list jtoken -> pres (option jvalue)) :
+  wf ts -> (forall t rest, exists o ds, F t rest = Res o ds rest) ->
+  okres (length ts) (match read ts with Some (tok, rest) => F tok rest | None => Panic end).
+Proof.
+  intros Hw HF. destruct (read_wf _ Hw) as [t [r [ts' [_ [Er [Hw' [Hl' _]]]]]]]. rewrite Er.
+  destruct (HF t ts') as [o [ds E]]. rewrite E. apply okres_res; assumption.
+Qed.
+
+Lemma parse_value_ok : forall f ts, wf ts -> (f > length ts)%nat -> okres (length ts) (parse_value f ts).
+Proof.
+  induction f as [|f IH]; intros ts Hw Hf; [lia|].
+  cbn [parse_value]. destruct ts as [|tok r] eqn:Ets; [apply wf_length in Hw; simpl in Hw; lia|]. rewrite <- Ets in *.
+  assert (Hcont : tty tok <> TEOF -> exists ts1, read ts = Some (tok, ts1) /\ wf ts1 /\ S (length ts1) = length ts).
+  { intro Hn. destruct (read_wf _ Hw) as [t [r' [ts1 [E1 [Er [Hw1 [Hl1 Hr1]]]]]]].
+    assert (Ett : t = tok /\ r' = r) by (rewrite Ets in E1; inversion E1; split; reflexivity).
+    destruct Ett as [-> ->]. specialize (Hr1 Hn). subst ts1. exists r. split; [exact Er|].
+    split; [exact Hw1|]. rewrite Ets. reflexivity. }
+  destruct (tty tok) eqn:Et; try (apply okres_res; [exact Hw|lia]).
+  - (* object *) apply wrap_invalid_ok. unfold parse_object.
+    destruct (Hcont ltac:(discriminate)) as [ts1 [Er [Hw1 L1]]]. rewrite Er.
+    eapply okres_le; [apply (obj_loop_ok _ (length ts1)); [|exact Hw1|lia|lia]|lia].
+    intros ts' Hw' Hl'. apply IH; [exact Hw'|lia].
+  - (* array *) apply wrap_invalid_ok. unfold parse_array.
+    destruct (Hcont ltac:(discriminate)) as [ts1 [Er [Hw1 L1]]]. rewrite Er.
+    eapply okres_le; [apply (arr_loop_ok _ (length ts1)); [|exact Hw1|lia|lia]|lia].
+    intros ts' Hw' Hl'. apply IH; [exact Hw'|lia].
+  - (* keyword *) apply wrap_invalid_ok. unfold parse_keyword. apply leaf_ok; [exact Hw|].
+    intros t rest. destruct (zlist_eqb (tbytes t) [116; 114; 117; 101]); [do 2 eexists; reflexivity|].
+    destruct (zlist_eqb (tbytes t) [102; 97; 108; 115; 101]); [do 2 eexists; reflexivity|].
+    destruct (zlist_eqb (tbytes t) [110; 117; 108; 108]); do 2 eexists; reflexivity.
+  - (* string *) apply wrap_invalid_ok. unfold parse_string. apply leaf_ok; [exact Hw|].
+    intros t rest. destruct (json_string_decode (tbytes t)); do 2 eexists; reflexivity.
+  - (* number *) apply wrap_invalid_ok. unfold parse_number. apply leaf_ok; [exact Hw|].
+    intros t rest. destruct (negb (json_number_ok (tbytes t))); [do 2 eexists; reflexivity|].
+    destruct (negb (big_parse_ok (tbytes t))); [do 2 eexists; reflexivity|].
+    destruct (number_value (tbytes t)). do 2 eexists; reflexivity.
+Qed.
+
+Lemma jscan_wf bs : wf (jscan bs).
+Proof.
+  destruct (jscan_eof bs) as [pre [e [E [He Hp]]]]. exists pre, e. repeat split; assumption.
+Qed.
+
+(* json.ParseExpression / json.Parse always return a node and diagnostics *)
+Theorem jparse_total bs : exists v ds, jparse bs = JRes v ds.
+Proof.
+  unfold jparse, parse_tokens.
+  destruct (parse_value_ok (S (length (jscan bs))) (jscan bs) (jscan_wf bs) ltac:(lia))
+    as [v [ds [rest [E [Hw Hl]]]]].
+  rewrite E. destruct ds as [|d ds'].
+  - destruct rest as [|t r]; [apply wf_length in Hw; simpl in Hw; lia|].
+    destruct (is_eof t); eexists; eexists; reflexivity.
+  - destruct rest; eexists; eexists; reflexivity.
+Qed.
+
+Corollary jparse_file_total bs : exists v ds, jparse_file bs = JRes v ds.
+Proof.
+  unfold jparse_file. destruct (jparse_total bs) as [v [ds E]]. rewrite E.
+  destruct v; eexists; eexists; reflexivity.
+Qed.
+
+(* ================================================================================== *)
+(* E. a JSON text is valid UTF-8 (the hypothesis of accept_sound_partial is necessary) *)
+(* ================================================================================== *)
+
+Lemma ascii_valid l : Forall (fun b => b < 128) l -> utf8_valid l = true.
+Proof.
+  intro H. unfold utf8_valid. rewrite <- (app_nil_r l). rewrite utf8_valid_ascii_list by exact H. reflexivity.
+Qed.
+
+Lemma item_valid i : item_ok i -> utf8_valid (item_bytes i) = true.
+Proof.
+  destruct i as [bs|c|h1 h2 h3 h4]; simpl; intro H.
+  - destruct H as [b Hb _ _|bs' Hm].
+    + apply ascii_valid. repeat constructor. lia.
+    + unfold utf8_valid. rewrite <- (app_nil_r bs'). rewrite (utf8_valid_multi _ _ Hm). reflexivity.
+  - apply ascii_valid. repeat constructor; unfold esc_letter in H; lia.
+  - destruct H as [H1 [H2 [H3 H4]]]. apply ascii_valid.
+    repeat constructor; try (apply hexdig_ascii; assumption); lia.
+Qed.
+
+Lemma items_valid items : Forall item_ok items -> utf8_valid (flat_map item_bytes items) = true.
+Proof.
+  induction 1 as [|i items Hi _ IH]; [reflexivity|]. cbn [flat_map].
+  apply utf8_valid_app; [apply item_valid; exact Hi|exact IH].
+Qed.
+
+Lemma StringLit_valid bs s : StringLit bs s -> utf8_valid bs = true.
+Proof.
+  intros [items Hi]. change (34 :: flat_map item_bytes items ++ [34]) with ([34] ++ flat_map item_bytes items ++ [34]).
+  apply utf8_valid_app; [reflexivity|]. apply utf8_valid_app; [apply items_valid; exact Hi|reflexivity].
+Qed.
+
+Lemma WS_valid w : WS w -> utf8_valid w = true.
+Proof. intro H. apply ascii_valid. apply WS_ascii. exact H. Qed.
+
+Lemma Number_valid bs m e : Number bs m e -> utf8_valid bs = true.
+Proof.
+  intro H. apply ascii_valid. apply Forall_forall. intros b Hb. apply number_byte_ascii.
+  pose proof (Number_bytes _ _ _ H) as Hn. rewrite forallb_forall in Hn. apply Hn. exact Hb.
+Qed.
+
+Ltac valid_apps :=
+  repeat first
+    [ assumption
+    | (apply WS_valid; assumption)
+    | (eapply StringLit_valid; eassumption)
+    | (apply utf8_valid_app; [|])
+    | reflexivity ].
+
+Lemma Value_valid :
+  (forall bs v, Value bs v -> utf8_valid bs = true) /\
+  (forall bs vs, Elements bs vs -> utf8_valid bs = true) /\
+  (forall bs ms, Members bs ms -> utf8_valid bs = true).
+Proof.
+  apply json_mutind.
+  - reflexivity.
+  - reflexivity.
+  - reflexivity.
+  - intros bs m e H. eapply Number_valid. exact H.
+  - intros bs s H. eapply StringLit_valid. exact H.
+  - intros w Hw. change (91 :: w ++ [93]) with ([91] ++ w ++ [93]). valid_apps.
+  - intros bs vs _ IH. change (91 :: bs ++ [93]) with ([91] ++ bs ++ [93]). valid_apps.
+  - intros w Hw. change (123 :: w ++ [125]) with ([123] ++ w ++ [125]). valid_apps.
+  - intros bs ms _ IH. change (123 :: bs ++ [125]) with ([123] ++ bs ++ [125]). valid_apps.
+  - intros w1 bs w2 v Hw1 _ IH Hw2. valid_apps.
+  - intros w1 bs w2 v rest vs Hw1 _ IHv Hw2 _ IHe.
+    change (44 :: rest) with ([44] ++ rest). valid_apps.
+  - intros w1 kb k w2 w3 bs w4 v Hw1 Hk Hw2 Hw3 _ IH Hw4.
+    change (58 :: w3 ++ bs ++ w4) with ([58] ++ w3 ++ bs ++ w4). valid_apps.
+  - intros w1 kb k w2 w3 bs w4 v rest ms Hw1 Hk Hw2 Hw3 _ IHv Hw4 _ IHm.
+    change (58 :: w3 ++ bs ++ w4 ++ 44 :: rest) with ([58] ++ w3 ++ bs ++ w4 ++ [44] ++ rest). valid_apps.
+Qed.
+
+Theorem JsonText_utf8_valid bs v : JsonText bs v -> utf8_valid bs = true.
+Proof.
+  intros [w1 core w2 v' Hw1 Hv Hw2]. pose proof (proj1 Value_valid _ _ Hv). valid_apps.
+Qed.
+
+(* acceptance, on input without Prepend-class characters and with numbers in
+   big.Float's exponent range, is exactly JSON *)
+Corollary accept_iff bs v : has_prepend bs = false -> go_numbers_ok bs = true ->
+  (jparse bs = JRes v [] /\ utf8_valid bs = true <-> JsonText bs v).
+Proof.
+  intros Hp Hn. split.
+  - intros [H Hv]. apply accept_sound_partial; assumption.
+  - intro H. split; [apply accept_complete_partial; assumption|eapply JsonText_utf8_valid; exact H].
 Qed.
